@@ -769,12 +769,70 @@ func (g *Gen) selectInstr(x *ssa.Select, st *State, r string) {
 			}
 		}
 	}
+	g.selectSites(x, st, r)
 	tup := []Val{{T: idx, Sort: "Int"}, {T: g.freshConst("selok", "Bool"), Sort: "Bool"}}
 	tt := x.Type().(*types.Tuple)
 	for i := 2; i < tt.Len(); i++ {
 		tup = append(tup, g.freshTupleElem(x, st, tt.At(i).Type(), "selrecv"))
 	}
 	g.vals[x] = Val{Tuple: tup}
+}
+
+// selectSites applies "site select#k assert ..." clauses: assertions about the communications a select
+// statement offers. $ch<i> is the channel of case i, $val<i> the value offered by a send case.
+func (g *Gen) selectSites(x *ssa.Select, st *State, r string) {
+	if g.con == nil || len(g.con.Sites) == 0 {
+		return
+	}
+	var env *Env
+	for _, sc := range g.con.Sites {
+		if sc.Match != "select" || sc.Kind != "assert" {
+			continue
+		}
+		ck := "site:select"
+		if g.siteSeen == nil {
+			g.siteSeen = map[string]map[ssa.Instruction]int{}
+		}
+		if g.siteSeen[ck] == nil {
+			g.siteSeen[ck] = map[ssa.Instruction]int{}
+		}
+		ord, seen := g.siteSeen[ck][x]
+		if !seen {
+			ord = len(g.siteSeen[ck])
+			g.siteSeen[ck][x] = ord
+		}
+		if ord != sc.Ord {
+			continue
+		}
+		if env == nil {
+			b := x.Block()
+			idx := 0
+			for i, ins := range b.Instrs {
+				if ins == ssa.Instruction(x) {
+					idx = i
+				}
+			}
+			vars := g.namesAt(b, idx)
+			for i, s := range x.States {
+				if v, ok := g.valOpt(s.Chan); ok {
+					vars[fmt.Sprintf("$ch%d", i)] = v
+				}
+				if s.Send != nil {
+					if v, ok := g.valOpt(s.Send); ok {
+						vars[fmt.Sprintf("$val%d", i)] = v
+					}
+				}
+			}
+			env = g.envFor(vars, st, st)
+		}
+		t := g.mustClause(env, sc.E, "site select")
+		name := fmt.Sprintf("%s/site:select#%d", shortKey(g.key), sc.Ord)
+		g.counters[name]++
+		if g.counters[name] > 1 {
+			name = fmt.Sprintf("%s@%d", name, g.counters[name]-1)
+		}
+		g.oblige(name, "site-assert", sc.Tags, r, t, sc.Src, x.Pos())
+	}
 }
 
 func (g *Gen) rangeInstr(x *ssa.Range, st *State, r string) {
@@ -824,7 +882,11 @@ func (g *Gen) siteClauses(b *ssa.BasicBlock, ins ssa.CallInstruction, st *State,
 	case cc.StaticCallee() != nil:
 		key = fnKey(cc.StaticCallee())
 	default:
-		key = "dynamic"
+		if bi, isB := cc.Value.(*ssa.Builtin); isB {
+			key = "builtin:" + bi.Name()
+		} else {
+			key = "dynamic"
+		}
 	}
 	if _, isGo := ins.(*ssa.Go); isGo {
 		key = "go " + key
